@@ -16,11 +16,22 @@
 //   origin <d:..> | origin none                    expansionOrigin
 //   cal                                            -> polynomial and origin as stored
 //   reopen ro|rw                                   File::close(); File::open(...)
+// typed container routes (every data_traits specialisation the library ships):
+//   route = sc (scalar T / std::string) | c1 (T[N], N in {5, 300}) | c2 (T[M][N], {2,3} or {260,2}) | vec (std::vector<T>)
+//           | val (std::valarray<T>) | ma (boost::multi_array<T,N>, N = number of extents, 1..3) | nd (nix::NDArray)
+//   tsetall <route> <ext...> ; <values...>          DataSet::setData(value)             container of extents ext
+//   tset <route> <ext...> ; <off...> ; <values...>  DataSet::setData(value, offset)
+//   tgetall <route> <ext0...>                       DataSet::getData(value)             container starts with extents ext0
+//   tget <route> <ext0...> ; <off...> ; <cnt...>    DataSet::getData(value, count, offset)
+//   tgetat <route> <ext...> ; <off...>              DataSet::getData(value, offset)
 // values: Bool 0/1, integers decimal, Float f:<8 hex>, Double d:<16 hex>, String s:<hex>
 #include "common.hpp"
 #include <hdf5.h>
 #include <memory>
 #include <limits>
+#include <valarray>
+#include <nix/hydra/multiArray.hpp>
+#include <nix/NDArray.hpp>
 
 using namespace nixv;
 using nix::DataType;
@@ -206,8 +217,184 @@ template<typename T> static void writevec_t(const Buf &b) {
     S.arr.setData(v);
 }
 
+
+// ---------------------------------------------------------------------------------------------
+// typed container routes
+// ---------------------------------------------------------------------------------------------
+static size_t ext_elems(const std::vector<unsigned long long> &ext) {
+    unsigned long long n = 1;
+    for (auto e : ext) if (e == 0) return 0;
+    for (auto e : ext) { n *= e; if (n > 4000000ULL) throw std::logic_error("case too large for the driver"); }
+    return static_cast<size_t>(n);
+}
+
+static std::vector<unsigned long long> to_u64s(const std::vector<std::string> &v) {
+    std::vector<unsigned long long> o;
+    for (auto &s : v) o.push_back(dec_u64(s));
+    return o;
+}
+
+template<typename T> static std::string show_typed(const T *p, size_t n) {
+    Buf b(S.dt, n);
+    for (size_t i = 0; i < n; i++) put<T>(b, i, p[i]);
+    return show_all(b);
+}
+
+// what to do with a container once it exists
+struct Call {
+    std::string cmd;          // tsetall tset tgetall tget tgetat
+    NDSize off, cnt;
+};
+
+template<typename C> static void do_call(C &c, const Call &k) {
+    if (k.cmd == "tsetall") S.arr.setData(c);
+    else if (k.cmd == "tset") S.arr.setData(c, k.off);
+    else if (k.cmd == "tgetall") S.arr.getData(c);
+    else if (k.cmd == "tget") S.arr.getData(c, k.cnt, k.off);
+    else if (k.cmd == "tgetat") S.arr.getData(c, k.off);
+    else throw std::logic_error("bad typed command");
+}
+
+static bool is_set(const Call &k) { return k.cmd == "tsetall" || k.cmd == "tset"; }
+
+template<typename T, size_t N> static std::string run_ma(const std::vector<unsigned long long> &ext, const Buf *in, const Call &k) {
+    boost::array<typename boost::multi_array<T, N>::index, N> e;
+    for (size_t i = 0; i < N; i++) e[i] = static_cast<typename boost::multi_array<T, N>::index>(ext[i]);
+    boost::multi_array<T, N> m(e);
+    if (in) for (size_t i = 0; i < m.num_elements(); i++) m.data()[i] = get<T>(*in, i);
+    do_call(m, k);
+    return is_set(k) ? "-" : show_typed<T>(m.data(), m.num_elements());
+}
+
+template<typename T, size_t N> static std::string run_c1(const Buf *in, const Call &k) {
+    static T a[N];
+    for (size_t i = 0; i < N; i++) a[i] = in ? get<T>(*in, i) : T();
+    do_call(a, k);
+    return is_set(k) ? "-" : show_typed<T>(a, N);
+}
+
+template<typename T, size_t M, size_t N> static std::string run_c2(const Buf *in, const Call &k) {
+    static T a[M][N];
+    T *flat = reinterpret_cast<T *>(a);
+    for (size_t i = 0; i < M * N; i++) flat[i] = in ? get<T>(*in, i) : T();
+    do_call(a, k);
+    return is_set(k) ? "-" : show_typed<T>(flat, M * N);
+}
+
+template<typename T> struct VecRoute {
+    static std::string run(size_t n, const Buf *in, const Call &k) {
+        std::vector<T> v(n);
+        if (in) for (size_t i = 0; i < n; i++) v[i] = get<T>(*in, i);
+        do_call(v, k);
+        return is_set(k) ? "-" : show_typed<T>(v.data(), v.size());
+    }
+};
+template<> struct VecRoute<bool> {
+    static std::string run(size_t, const Buf *, const Call &) { throw std::logic_error("std::vector<bool> is not supported by Hydra"); }
+};
+
+template<typename T> static std::string run_val(size_t n, const Buf *in, const Call &k) {
+    std::valarray<T> v(n);
+    if (in) for (size_t i = 0; i < n; i++) v[i] = get<T>(*in, i);
+    do_call(v, k);
+    return is_set(k) ? "-" : (v.size() ? show_typed<T>(&v[0], v.size()) : show_typed<T>(nullptr, 0));
+}
+
+template<typename T> static std::string run_scalar(const Buf *in, const Call &k) {
+    T v = in ? get<T>(*in, 0) : T();
+    do_call(v, k);
+    return is_set(k) ? "-" : show_typed<T>(&v, 1);
+}
+
+static std::string run_scalar_string(const Buf *in, const Call &k) {
+    std::string v = in ? in->str[0] : std::string();
+    do_call(v, k);
+    if (is_set(k)) return "-";
+    Buf b(DataType::String, 1);
+    b.str[0] = v;
+    return show_all(b);
+}
+
+template<typename T> static std::string run_nd(const std::vector<unsigned long long> &ext, const Buf *in, const Call &k) {
+    NDSize dims(ext.size());
+    for (size_t i = 0; i < ext.size(); i++) dims[i] = ext[i];
+    nix::NDArray a(S.dt, dims);
+    if (in) for (size_t i = 0; i < in->n; i++) a.set<T>(i, get<T>(*in, i));
+    do_call(a, k);
+    return is_set(k) ? "-" : show_typed<T>(reinterpret_cast<const T *>(a.data()), static_cast<size_t>(a.num_elements()));
+}
+
+template<typename T> static std::string typed_t(const std::string &route, const std::vector<unsigned long long> &ext,
+                                               const Buf *in, const Call &k) {
+    if (route == "ma") {
+        switch (ext.size()) {
+        case 1: return run_ma<T, 1>(ext, in, k);
+        case 2: return run_ma<T, 2>(ext, in, k);
+        case 3: return run_ma<T, 3>(ext, in, k);
+        default: throw std::logic_error("driver: multi_array of rank 1..3 only");
+        }
+    }
+    if (route == "c1") {
+        if (ext.size() == 1 && ext[0] == 5) return run_c1<T, 5>(in, k);
+        if (ext.size() == 1 && ext[0] == 300) return run_c1<T, 300>(in, k);
+        throw std::logic_error("driver: C arrays of 5 or 300 elements only");
+    }
+    if (route == "c2") {
+        if (ext.size() == 2 && ext[0] == 2 && ext[1] == 3) return run_c2<T, 2, 3>(in, k);
+        if (ext.size() == 2 && ext[0] == 260 && ext[1] == 2) return run_c2<T, 260, 2>(in, k);
+        throw std::logic_error("driver: C arrays [2][3] or [260][2] only");
+    }
+    if (route == "vec") {
+        if (ext.size() != 1) throw std::logic_error("driver: vector has one extent");
+        return VecRoute<T>::run(static_cast<size_t>(ext[0]), in, k);
+    }
+    if (route == "val") {
+        if (ext.size() != 1) throw std::logic_error("driver: valarray has one extent");
+        return run_val<T>(static_cast<size_t>(ext[0]), in, k);
+    }
+    if (route == "sc") return run_scalar<T>(in, k);
+    if (route == "nd") return run_nd<T>(ext, in, k);
+    throw std::logic_error("bad route " + route);
+}
+
+static std::string typed(const std::vector<std::string> &t) {
+    Call k;
+    k.cmd = t[0];
+    const std::string &route = t[1];
+    auto sec = sections(t, 2);
+    std::vector<unsigned long long> ext = to_u64s(sec[0]);
+    const std::vector<std::string> *vals = nullptr;
+    if (k.cmd == "tsetall") { if (sec.size() != 2) throw std::logic_error("tsetall needs 2 sections"); vals = &sec[1]; }
+    else if (k.cmd == "tset") { if (sec.size() != 3) throw std::logic_error("tset needs 3 sections"); k.off = to_ndsize(sec[1]); vals = &sec[2]; }
+    else if (k.cmd == "tgetall") { if (sec.size() != 1) throw std::logic_error("tgetall needs 1 section"); }
+    else if (k.cmd == "tget") { if (sec.size() != 3) throw std::logic_error("tget needs 3 sections"); k.off = to_ndsize(sec[1]); k.cnt = to_ndsize(sec[2]); }
+    else if (k.cmd == "tgetat") { if (sec.size() != 2) throw std::logic_error("tgetat needs 2 sections"); k.off = to_ndsize(sec[1]); }
+    size_t n = route == "sc" ? 1 : ext_elems(ext);
+    std::unique_ptr<Buf> in;
+    if (vals) in.reset(new Buf(parse_buf(S.dt, *vals, n)));
+    if (S.dt == DataType::String) {
+        if (route != "sc") throw std::logic_error("driver: String only through the scalar route (and readvec/writeall for std::vector)");
+        return run_scalar_string(in.get(), k);
+    }
+    switch (S.dt) {
+    case DataType::Bool: return typed_t<bool>(route, ext, in.get(), k);
+    case DataType::Int8: return typed_t<int8_t>(route, ext, in.get(), k);
+    case DataType::Int16: return typed_t<int16_t>(route, ext, in.get(), k);
+    case DataType::Int32: return typed_t<int32_t>(route, ext, in.get(), k);
+    case DataType::Int64: return typed_t<int64_t>(route, ext, in.get(), k);
+    case DataType::UInt8: return typed_t<uint8_t>(route, ext, in.get(), k);
+    case DataType::UInt16: return typed_t<uint16_t>(route, ext, in.get(), k);
+    case DataType::UInt32: return typed_t<uint32_t>(route, ext, in.get(), k);
+    case DataType::UInt64: return typed_t<uint64_t>(route, ext, in.get(), k);
+    case DataType::Float: return typed_t<float>(route, ext, in.get(), k);
+    case DataType::Double: return typed_t<double>(route, ext, in.get(), k);
+    default: throw std::logic_error("bad dtype");
+    }
+}
+
 static std::string handle(const std::vector<std::string> &t) {
     const std::string &cmd = t[0];
+    if (cmd == "tsetall" || cmd == "tset" || cmd == "tgetall" || cmd == "tget" || cmd == "tgetat") return typed(t);
     if (cmd == "create") {
         if (S.file) { try { S.file.close(); } catch (...) {} }
         S = Session();
